@@ -68,7 +68,9 @@ func (re *Regexp) UnmarshalYAML(unmarshal func(any) error) error {
 
 // MarshalYAML implements the yaml.Marshaler interface for Regexp.
 func (re Regexp) MarshalYAML() (any, error) {
-	if re.Original != "" {
+	// A compiled empty pattern is a value too: it must be written back as
+	// "", not as null, which the unmarshaler rejects.
+	if re.Original != "" || re.Regexp != nil {
 		return re.Original, nil
 	}
 	return nil, nil
@@ -91,7 +93,7 @@ func (re *Regexp) UnmarshalJSON(data []byte) error {
 
 // MarshalJSON implements the json.Marshaler interface for Regexp.
 func (re Regexp) MarshalJSON() ([]byte, error) {
-	if re.Original != "" {
+	if re.Original != "" || re.Regexp != nil {
 		return json.Marshal(re.Original)
 	}
 	return []byte("null"), nil
